@@ -284,6 +284,11 @@ def run_config(mon: Monitor, cfg, workdir: str) -> None:
 
 
 PINNED = [
+    # supplied overviews x nodata by keyword (differs from / absent in attrs): the conjunction seeded change C15-1 needs
+    dict(ny=64, nx=80, layout="YX", ns=1, dtype="int16", nodata=-9999, crs="EPSG:3857", rotated=False, blocksize=32, ovr_blocksize=None, overviews="external", windowed=False, intermediate=False, dest="file", existing=None, api="write_cog", data_seed=21, nodata_via="kw", data_kind="random"),
+    dict(ny=33, nx=40, layout="SYX", ns=2, dtype="uint8", nodata=255, crs="EPSG:4326", rotated=False, blocksize=16, ovr_blocksize=16, overviews="external", windowed=False, intermediate=False, dest="mem", existing=None, api="write_cog", data_seed=22, nodata_via="kw-over-attrs", data_kind="patchy"),
+    # windowed writes x non-zero nodata x whole tiles of zeros (C15-2)
+    dict(ny=128, nx=96, layout="YX", ns=1, dtype="int16", nodata=-9999, crs="EPSG:3857", rotated=False, blocksize=32, ovr_blocksize=None, overviews="default", windowed=True, intermediate=False, dest="file", existing=None, api="write_cog", data_seed=23, nodata_via="attrs", data_kind="constant"),
     dict(ny=40, nx=50, layout="YX", ns=1, dtype="uint16", nodata=None, crs="EPSG:3857", rotated=False, blocksize=None, ovr_blocksize=None, overviews="default", windowed=False, intermediate=False, dest="file", existing="no-overwrite", api="write_cog", data_seed=1),
     dict(ny=40, nx=50, layout="YX", ns=1, dtype="uint16", nodata=None, crs="EPSG:3857", rotated=False, blocksize=None, ovr_blocksize=None, overviews="external", windowed=False, intermediate=False, dest="file", existing="no-overwrite", api="layers", data_seed=2),
     dict(ny=40, nx=50, layout="YX", ns=1, dtype="uint16", nodata=None, crs="EPSG:3857", rotated=False, blocksize=None, ovr_blocksize=None, overviews=[], windowed=False, intermediate=False, dest="file", existing="no-overwrite", api="write_cog", data_seed=3),
